@@ -20,6 +20,9 @@ Definition sfield_of (f : afield) : sfield :=
 Definition dart_ctor_args (n : nrec) : list string :=
   map lower_first_ok (selected_keys (map sfield_of (nr_fields n))).
 
+(** the JSON keys the struct routines read and write (jsonForStruct): those of the same fields, in the same order *)
+Definition dart_json_keys (n : nrec) : list string := selected_keys (map sfield_of (nr_fields n)).
+
 Section Tables.
   Variable pr : prog.
   Variable a : ana_obs.
